@@ -251,6 +251,43 @@ def bounded(tier, seed):
                                 return 'linear profile along %s of %s not reproduced' % (d, vk)
                     return None
                 run.case('C17:interpDimension', (spec['seed'], d, nx_.tolist()), t)
+    # interpDimension with a coordinate VARIABLE that has a value in every column (coordkey=...): source / target columns
+    # fixed or varying from column to column, increasing or decreasing
+    rs = np.random.default_rng(seed + 17)
+    zs = np.array([0., 1., 2.5, 4., 7.])
+    shp_s, shp_t = (2, 5, 3, 4), (2, 4, 3, 4)
+    slope, icpt = rs.uniform(-2, 2, (2, 1, 3, 4)), rs.uniform(-5, 5, (2, 1, 3, 4))
+    terrain = rs.uniform(0, 1, (2, 1, 3, 4))
+    frac = np.array([.1, .35, .6, .9])[None, :, None, None]
+    src_fix = zs[None, :, None, None] + np.zeros(shp_s)
+    src_var = zs[None, :, None, None] * (1 + terrain) + np.zeros(shp_s)
+    tgt_fix = 7. * frac + np.zeros(shp_t)
+    tgt_var = np.sort(7. * np.clip(frac + rs.uniform(-.08, .08, shp_t), 0, 1), axis=1)
+    for label, sz, tz in (('source varies, target fixed', src_var, tgt_fix), ('source varies, target varies', src_var, tgt_var * (1 + terrain)),
+                          ('source fixed, target fixed', src_fix, tgt_fix), ('source fixed, target varies', src_fix, tgt_var),
+                          ('decreasing, source fixed, target varies', 1000. - 100 * src_fix, 1000. - 100 * tgt_var), ('target = source', src_var, src_var)):
+        def t4(sz=sz, tz=tz):
+            dk4 = ('time', 'layer', 'latitude', 'longitude')
+
+            def mk(z):
+                f = P.PseudoNetCDFFile()
+                for dk, dl in zip(dk4, z.shape):
+                    f.createDimension(dk, dl)
+                f.createVariable('z', 'd', dk4, values=z.copy())
+                return f
+            f = mk(sz)
+            f.createVariable('lin', 'd', dk4, values=slope * sz + icpt)
+            f.createVariable('const', 'd', dk4, values=np.zeros(sz.shape) - 1.5)
+            out = f.interpDimension('layer', mk(tz).variables['z'], coordkey='z')
+            if not np.allclose(out.variables['z'][:], tz, rtol=1e-9, atol=1e-9):
+                return 'the coordinate variable does not land on the target values'
+            if not np.allclose(out.variables['lin'][:], slope * tz + icpt, rtol=1e-9, atol=1e-9):
+                bad = np.argwhere(~np.isclose(out.variables['lin'][:], slope * tz + icpt, rtol=1e-9, atol=1e-9))[0]
+                return 'linear profile not reproduced in column %r' % (tuple(int(x) for x in bad),)
+            if not np.allclose(out.variables['const'][:], -1.5):
+                return 'constant field not reproduced'
+            return None
+        run.case('C17:interpDimension with an N-d coordinate variable (%s)' % label, label, t4)
     return run.result(
         rule='real getinterpweights (non-negative inside, columns sum to 1, linear profiles exact, identity), sigma2coeff vs independent overlap fractions, interpSigma conserve (column integral, constant field) '
              'and linear, interpDimension along every coordinate dimension; tolerance 1e-5 relative (float32 level edges)',
